@@ -569,9 +569,8 @@ open EncJsonEmb in
     omitzero.
 
     Partial, what is missing: (1) types outside `InDomainE` — a JSON name shared by two Go names is the known
-    finding D14 (see the witness below), tagged or non-struct or unexported embedded fields are D16; (2) named
-    (declared) types in non-embedded positions, as in C04/C09 (`InDomain` has none; they are covered by
-    `typeTable_substituted`); (3) overrides of embedded types: the full statement would add the override's property
+    finding D14 (see the witness below), tagged or non-struct or unexported embedded fields are D16; (2) declared
+    types in non-embedded positions: these are in `properties_eq_encjson_named_partial`; (3) overrides of embedded types: the full statement would add the override's property
     names (sorted, where absent) at the position of the embedded field and drop the promoted fields below it:
       propertyOrder = dedupKeepLast (the names entered by `structLoopE` field by field)
     which `structLoopE` computes but no theorem here states. -/
@@ -588,6 +587,29 @@ theorem properties_eq_encjson_partial (opts : IOpts) (fuel : Nat) (fields : List
     inferStepE_struct_names (inferFuelE_some opts fuel) (t0 := .struct fields) (an := false) rfl hdom hno h
   cases hid
   rw [addNull_false] at hn
+  exact ⟨n, hn, h1, h2, h3, h4⟩
+
+open EncJsonEmb in
+/-- **properties = encoding/json's fields, with declared types in non-embedded positions (partial)**: as
+    `properties_eq_encjson_partial`, for a struct whose field types (at any depth, those of the fields of embedded structs
+    included) may be declared types without a type-table entry (`InDomainEN`, `NamedOkE`, see
+    `C04.infer_soundE_named_partial`): the names, their order and `required` are those of `typeFields` of the struct
+    itself — encoding/json's field list does not depend on whether a field's type is declared.  Partial in the same sense
+    as `properties_eq_encjson_partial`. -/
+theorem properties_eq_encjson_named_partial (opts : IOpts) (fuel : Nat) (fields : List (FieldE GoTypeE)) (st : Store)
+    (id : NodeId) (st' : Store) (hdom : InDomainEN (.struct fields) = true)
+    (hok : NamedOkE opts [] (.struct fields) = true) (hno : NoOverride opts (visibleFields fields))
+    (h : forTypeE opts (fuel + 1) (.struct fields) st = .ok (some id, st')) :
+    ∃ n, st'.get? id = some n ∧ n.type = "object" ∧
+      n.propertyOrder.getD [] = fieldNames fields ∧
+      (∀ k, k ∈ (n.properties.getD []).map (·.1) ↔ k ∈ fieldNames fields) ∧
+      n.required.getD [] = alwaysFieldNames fields := by
+  rw [forTypeE_erase opts (fuel + 1) _ st hok] at h
+  have hdom' : InDomainE (.struct (eraseFieldsE fields)) = true := hdom
+  obtain ⟨n, hn, h1, h2, h3, h4⟩ := properties_eq_encjson_partial opts fuel (eraseFieldsE fields) st id st' hdom'
+    (noOverride_erase hno) h
+  rw [(fieldNames_erase fields).1] at h2 h3
+  rw [(fieldNames_erase fields).2] at h4
   exact ⟨n, hn, h1, h2, h3, h4⟩
 
 open EncJsonEmb in
